@@ -21,6 +21,16 @@ let run toks =
   | "from_u32" -> flag (from_u32 (cn c))
   | "from_slice" -> flag (from_slice (cword c))
   | "from_vec" -> flag (from_vec (cword c))
+  | "from_array" -> flag (from_array (cword c))
+  | "accessors" ->
+      let s = from_slice (cword c) in
+      let len = int_of_nat (smt_len s) in
+      let chars = List.init len (fun i -> get (smt_char s (nat_of_int i))) in
+      Printf.sprintf "len=%d empty=%s good=%s uni=%s chars=%s iter=%s ustr=%s" len (b (smt_is_empty s))
+        (b (smt_is_good s)) (b (smt_is_unicode s)) (show chars) (show (smt_iter s)) (show (smt_to_unicode_string s))
+  | "charat" -> let s = from_slice (cword c) in let i = ci c in sn (get (smt_char s (nat_of_int i)))
+  | "good_char" -> b (good_char (cn c))
+  | "good_string" -> b (good_string (cword c))
   | _ -> failwith "bad op"
 
 (* property oracle.  parse / roundtrip / constructors: the specification determines the result
@@ -70,7 +80,9 @@ let oracle toks r m =
   let c = cur_of toks in
   let op = next c in
   let strict () = if r = m then None else Some "impl differs from the verified model (spec determines the result uniquely)" in
-  if r = "PANIC" || r = "ABORT" || r = "TIMEOUT" || r = "MISSING" then Some ("impl: " ^ r)
+  (* char(i) is documented to panic out of range: PANIC must coincide with the model's *)
+  if op = "charat" then strict ()
+  else if r = "PANIC" || r = "ABORT" || r = "TIMEOUT" || r = "MISSING" then Some ("impl: " ^ r)
   else match op with
   | "display" ->
       let s = List.map int_of_n (from_slice (cword c)) in
